@@ -36,6 +36,7 @@ import (
 	"github.com/ontio/ontology/common"
 	"github.com/ontio/ontology/common/config"
 	"github.com/ontio/ontology/core/payload"
+	"github.com/ontio/ontology/core/store"
 	"github.com/ontio/ontology/core/types"
 	butils "github.com/ontio/ontology/core/utils"
 	httpcom "github.com/ontio/ontology/http/base/common"
@@ -108,11 +109,27 @@ func setup() {
 	must(k.Close())
 }
 
-func commit(k *ledgerkit.Kit, txs ...*types.Transaction) {
+// blocks committed to the ledger of the current line after the template, in order (replayed on the twin ledger)
+var committed []*types.Block
+
+func newBlock(k *ledgerkit.Kit, txs ...*types.Transaction) *types.Block {
 	blk, err := k.NextBlock(txs, 0)
 	must(err)
 	must(ledgerkit.SignWith(blk, book))
+	return blk
+}
+
+func commit(k *ledgerkit.Kit, txs ...*types.Transaction) {
+	blk := newBlock(k, txs...)
 	must(k.Add(blk))
+	committed = append(committed, blk)
+}
+
+// a block between its two phases: ExecuteBlock done, SubmitBlock not yet
+type pendingBlock struct {
+	blk *types.Block
+	res store.ExecuteResult
+	tx  *types.Transaction
 }
 
 func putTx(key, val string) *types.Transaction {
@@ -186,6 +203,32 @@ func exec(line string) hx.Result {
 	res := hx.Result{Key: line}
 	var outs []string
 	firstKind := ""
+	committed = nil
+	var pending *pendingBlock
+	split := false
+	submit := func() string {
+		if pending == nil {
+			return "-"
+		}
+		pb := pending
+		pending = nil
+		must(k.SubmitPhase(pb.blk, pb.res))
+		committed = append(committed, pb.blk)
+		n, err := k.Ledger.GetEventNotifyByTx(pb.tx.Hash())
+		if err != nil || n == nil || n.State != 1 {
+			return "fail"
+		}
+		return "ok"
+	}
+	execute := func(tx *types.Transaction) string {
+		submit() // at most one block between its phases
+		blk := newBlock(k, tx)
+		r, err := k.ExecutePhase(blk)
+		must(err)
+		pending = &pendingBlock{blk, r, tx}
+		split = true
+		return "exe"
+	}
 	for _, op := range strings.Split(f[1], ";") {
 		p := strings.Split(op, ":")
 		arg := func(i int) string {
@@ -250,7 +293,16 @@ func exec(line string) hx.Result {
 				panic(e)
 			}
 		}()
+		if strings.HasPrefix(p[0], "blk.") {
+			submit()
+		}
 		switch p[0] {
+		case "exe.put":
+			out = execute(putTx(key, arg(2)))
+		case "exe.ont":
+			out = execute(ontTx(num(1)))
+		case "sub":
+			out = submit()
 		case "pre.put":
 			tx := putTx(key, arg(2))
 			run(tx, pre(tx, true))
@@ -368,9 +420,33 @@ func exec(line string) hx.Result {
 		}
 		outs = append(outs, out)
 	}
+	submit()
 	b1, _ := k.Balance("ont", book.Address)
 	b2, _ := k.Balance("ont", rcpt.Address)
 	outs = append(outs, fmt.Sprintf("h=+%d b=%d,%d", k.Ledger.GetCurrentBlockHeight()-h0, b1, b2))
+	if split && res.Fail == "" {
+		// twin ledger: the same blocks on a copy of the same template, without any pre-execution in between
+		must(k.Close())
+		mine, err := ledgerkit.DumpStores(dir)
+		must(err)
+		tdir := dir + "-twin"
+		must(ledgerkit.CopyDir(tpl, tdir))
+		defer os.RemoveAll(tdir)
+		t, err := ledgerkit.Open(tdir, book)
+		must(err)
+		for _, blk := range committed {
+			must(t.Add(blk))
+		}
+		tb1, _ := t.Balance("ont", book.Address)
+		tb2, _ := t.Balance("ont", rcpt.Address)
+		must(t.Close())
+		twin, err := ledgerkit.DumpStores(tdir)
+		must(err)
+		if mine != twin || tb1 != b1 || tb2 != b2 {
+			res.Fail = fmt.Sprintf("persisted state after ExecuteBlock … pre-executions … SubmitBlock differs from a ledger that got the same blocks without them: %s (ont %d/%d) vs twin %s (ont %d/%d)", mine, b1, b2, twin, tb1, tb2)
+			res.Class = "preexec-between-execute-submit:stores"
+		}
+	}
 	res.Out = strings.Join(outs, " | ")
 	res.Kind = firstKind
 	return res
@@ -403,14 +479,23 @@ func gen(r *hx.Rand, tier string, i int) string {
 		switch x := r.Intn(100); {
 		case x < 22:
 			ops = append(ops, fmt.Sprintf("pre.put:%d:%d", k, v))
-		case x < 30:
+		case x < 27:
 			ops = append(ops, fmt.Sprintf("blk.put:%d:%d", k, v))
+		case x < 30:
+			// two-phase commit with pre-executions in between
+			if r.Bool() {
+				ops = append(ops, fmt.Sprintf("exe.put:%d:%d", k, v))
+			} else {
+				ops = append(ops, fmt.Sprintf("exe.ont:%d", amt()))
+			}
 		case x < 44:
 			ops = append(ops, fmt.Sprintf("get:%d", k))
 		case x < 58:
 			ops = append(ops, fmt.Sprintf("pre.ont:%d", amt()))
-		case x < 64:
+		case x < 62:
 			ops = append(ops, fmt.Sprintf("blk.ont:%d", amt()))
+		case x < 64:
+			ops = append(ops, "sub")
 		case x < 70:
 			ops = append(ops, "pre.bal")
 		case x < 76:
@@ -443,7 +528,10 @@ func main() {
 		Exec: exec,
 		Corpus: []string{"P pre.put:1:7;get:1;blk.put:1:8;get:1;pre.put:1:9;get:1", "P pre.ont:5;pre.bal;blk.ont:5;pre.bal;pre.ont:1000000000;pre.ont:999999995",
 			"P pre.batch:3:10;pre.batch:2:1000000001;pre.bal", "P pre.deploy:o;pre.deploy:w;pre.bad", "P pre.evm:1:7;pre.call:2:9;pre.evm:1:8",
-			"P blk.ont:1000000001;pre.bal;get:3"},
+			"P blk.ont:1000000001;pre.bal;get:3",
+			// pre-executions between ExecuteBlock and SubmitBlock of a block
+			"P exe.ont:12345;pre.evm:1:7;sub;pre.bal", "P exe.put:2:5;pre.put:2:9;pre.ont:7;sub;get:2", "P exe.ont:5;pre.call:1:2;pre.batch:2:3;pre.bal;sub;blk.ont:1;pre.bal",
+			"P exe.put:1:1;pre.deploy:o;pre.bad;exe.ont:3;pre.ont:1000;get:1"},
 		N: map[string]int{"quick": 100, "thorough": 2000},
 	})
 }
